@@ -347,7 +347,12 @@ void tokens_prune(token * first, token * last) {
 	if (prev != NULL) {
 		prev->next = next;
 
-		fix_token_chain_tail(prev);
+		if (next == NULL) {
+			// The chain now ends at prev -- only then does the tail change
+			// (walking the whole chain for every pruned token made a paragraph
+			// with n strong spans cost n^2)
+			fix_token_chain_tail(prev);
+		}
 	}
 
 	if (next != NULL) {
